@@ -43,6 +43,12 @@ type PtrV struct {
 	Arena *Arena
 	Idx   *term.T
 	Sub   []int // path inside the arena slot
+	// Symbolic element pointer: designates Obj at Path+[Base+k]+Suffix where
+	// k = SymIdx (already known to be in [0, SymN)).
+	SymIdx *term.T
+	SymN   int
+	Base   int
+	Suffix []int
 }
 
 func (p *PtrV) IsNil() bool { return p.Obj == nil && p.Arena == nil }
@@ -265,6 +271,9 @@ func (m *Machine) newObject(t types.Type, v Value, name string) *Object {
 	if m.inSetup {
 		o.Setup = true
 	}
+	if m.W != nil && m.trackObjs {
+		m.W.Objs = append(m.W.Objs, o)
+	}
 	return o
 }
 
@@ -326,12 +335,86 @@ func setPath(v Value, path []int, nv Value) Value {
 	return nil
 }
 
+// merge builds ite(c, a, b) over values.
+func (m *Machine) merge(c *term.T, a, b Value) Value {
+	if c.IsTrue() {
+		return a
+	}
+	if c.IsFalse() {
+		return b
+	}
+	switch x := a.(type) {
+	case *term.T:
+		if y, ok := b.(*term.T); ok {
+			return m.F.Ite(c, x, y)
+		}
+	case *StructV:
+		if y, ok := b.(*StructV); ok && len(x.F) == len(y.F) {
+			out := &StructV{F: make([]Value, len(x.F))}
+			for i := range x.F {
+				out.F[i] = m.merge(c, x.F[i], y.F[i])
+			}
+			return out
+		}
+	case *ArrayV:
+		if y, ok := b.(*ArrayV); ok && len(x.E) == len(y.E) {
+			out := &ArrayV{E: make([]Value, len(x.E))}
+			for i := range x.E {
+				out.E[i] = m.merge(c, x.E[i], y.E[i])
+			}
+			return out
+		}
+	case *IfaceV:
+		if y, ok := b.(*IfaceV); ok {
+			if valueIDSafe(x) == valueIDSafe(y) {
+				return x
+			}
+			xt, xp := m.ifaceFlat(x)
+			yt, yp := m.ifaceFlat(y)
+			return &IfaceV{Tag: m.F.Ite(c, xt, yt), Pay: m.F.Ite(c, xp, yp)}
+		}
+	}
+	if valueIDSafe(a) == valueIDSafe(b) {
+		return a
+	}
+	unsupported("cannot merge values %T and %T under a symbolic condition", a, b)
+	return nil
+}
+
+func valueIDSafe(v Value) (s string) {
+	defer func() {
+		if r := recover(); r != nil {
+			s = "?"
+		}
+	}()
+	return valueID(v)
+}
+
+func (p *PtrV) symPath(k int) []int {
+	q := append(append([]int(nil), p.Path...), p.Base+k)
+	return append(q, p.Suffix...)
+}
+
 func (m *Machine) load(p *PtrV) Value {
 	if p.Arena != nil {
 		return m.arenaLoad(p)
 	}
 	if p.Obj == nil {
 		m.goPanic("nil pointer dereference")
+	}
+	if p.SymIdx != nil {
+		ov := m.objVal(p.Obj)
+		var res Value
+		for k := p.SymN - 1; k >= 0; k-- {
+			m.noteRead(p.Obj, p.symPath(k))
+			v := getPath(ov, p.symPath(k))
+			if res == nil {
+				res = v
+			} else {
+				res = m.merge(m.F.Eq(p.SymIdx, m.F.BVC(64, uint64(k))), v, res)
+			}
+		}
+		return res
 	}
 	m.noteRead(p.Obj, p.Path)
 	return getPath(m.objVal(p.Obj), p.Path)
@@ -345,11 +428,26 @@ func (m *Machine) store(p *PtrV, v Value) {
 	if p.Obj == nil {
 		m.goPanic("nil pointer dereference")
 	}
+	if p.SymIdx != nil {
+		ov := m.objVal(p.Obj)
+		for k := 0; k < p.SymN; k++ {
+			m.noteWrite(p.Obj, p.symPath(k))
+			old := getPath(ov, p.symPath(k))
+			ov = setPath(ov, p.symPath(k), m.merge(m.F.Eq(p.SymIdx, m.F.BVC(64, uint64(k))), v, old))
+		}
+		m.setObjVal(p.Obj, ov)
+		return
+	}
 	m.noteWrite(p.Obj, p.Path)
 	m.setObjVal(p.Obj, setPath(m.objVal(p.Obj), p.Path, v))
 }
 
 func (p *PtrV) sub(i int) *PtrV {
+	if p.SymIdx != nil {
+		q := *p
+		q.Suffix = append(append([]int(nil), p.Suffix...), i)
+		return &q
+	}
 	if p.Arena != nil {
 		return &PtrV{Arena: p.Arena, Idx: p.Idx, Sub: append(append([]int(nil), p.Sub...), i)}
 	}
@@ -629,8 +727,6 @@ func (m *Machine) leafSorts(t types.Type, out []term.Sort) []term.Sort {
 				return append(out, term.Int)
 			}
 		}
-	case *types.Chan:
-		return append(out, term.Int)
 	}
 	unsupported("type %s cannot be kept in BMC state", t)
 	return nil
@@ -679,12 +775,6 @@ func (m *Machine) flatten(v Value, t types.Type, out []*term.T) []*term.T {
 		if p.Arena != nil && len(p.Sub) == 0 {
 			return append(out, p.Idx)
 		}
-	case *types.Chan:
-		c := v.(*ChanV)
-		if c.C == nil {
-			return append(out, m.F.IntC(-1))
-		}
-		return append(out, m.F.IntC(int64(c.C.ID)))
 	}
 	unsupported("value %T of type %s cannot be kept in BMC state", v, t)
 	return nil
@@ -724,15 +814,6 @@ func (m *Machine) unflatten(t types.Type, leaves []*term.T, pos *int) Value {
 			return &PtrV{}
 		}
 		return &PtrV{Arena: ar, Idx: idx}
-	case *types.Chan:
-		id := take()
-		if !id.IsConst() {
-			unsupported("symbolic channel identity in state")
-		}
-		if id.I == -1 {
-			return &ChanV{}
-		}
-		return &ChanV{C: m.W.Chans[int(id.I)]}
 	}
 	unsupported("unflatten %s", t)
 	return nil
